@@ -167,7 +167,7 @@ def main(chk):
     native.build(); native.build('release')
     q = chk.tier == 'quick'
     ns = (1, 2, 3, 4) if q else (1, 2, 3, 4, 5)
-    to = 40 if q else 600
+    to = 90 if q else 900
     tf = (lambda n: 2 * n + 3) if q else (lambda n: 3 * n + 3)
     jobs = []
     J = lambda *a, **k: jobs.append((r_family, (mir,) + a + (chk.seed, to), k))
@@ -175,6 +175,7 @@ def main(chk):
     J('OBV', 'bar', [], 8 if q else 12)
     for n in ns:
         for name, mode in (('FAST_STOCH', 'scalar'), ('FAST_STOCH', 'bar'), ('ROC', 'scalar'), ('ER', 'scalar'), ('CCI', 'bar'), ('MFI', 'bar')):
+            if q and n > 3 and (name, mode) in (('CCI', 'bar'), ('FAST_STOCH', 'bar'), ('FAST_STOCH', 'scalar')): continue     # > 100 s: thorough tier
             J(name, mode, [n], tf(n))
     for n in ns[:3] if q else ns[:4]:
         J('SLOW_STOCH', 'scalar', [n, 'p'], tf(n)); J('SLOW_STOCH', 'bar', [n, 'p'], tf(n))
